@@ -199,6 +199,7 @@ ReqRec(b, api, c, l, code, r, own1, st1, of1) ==
 \* one client request routed to broker b: handler.Handle -> acquireGroupLease -> coordinator
 Req(b, api, c) ==
   /\ nreq < MaxReq
+  /\ (api = "Fetch" => c = CHOOSE x \in Clients : TRUE)     \* OffsetFetch carries no member: one client suffices
   /\ LET l == IF api \in DevNoLeaseCheck THEN [ok |-> TRUE, code |-> 0, fresh |-> FALSE, key |-> key, sess |-> sess, owned |-> owned, nlease |-> nlease]
               ELSE Lease(b) IN
      /\ key' = l.key /\ sess' = l.sess /\ owned' = l.owned /\ nlease' = l.nlease
@@ -243,7 +244,7 @@ Shutdown(b) ==
   /\ last' = [ev |-> "Shutdown", b |-> b] /\ hist' = Append(hist, [a |-> "Shutdown", b |-> b])
   /\ UNCHANGED <<nlease, mem, store, offs, idOwner, mid, known, nreq>> /\ Book
 
-ReqStep == \E b \in Brokers, api \in Apis, c \in Clients : (api = "Fetch" => c = CHOOSE x \in Clients : TRUE) /\ Req(b, api, c)
+ReqStep == \E b \in Brokers, api \in Apis, c \in Clients : Req(b, api, c)
 ExpireStep == \E b \in Brokers : Expire(b)
 NoticeStep == \E b \in Brokers : Notice(b)
 ShutdownStep == \E b \in Brokers : Shutdown(b)
